@@ -160,3 +160,44 @@ P["C06"] = {
     "rule": "Three schemes, N = 4..16, 3..4 primes: (a) every result of ~20 operations (fresh pk/sk, negate, add, sub incl. mixed sizes 3x2 and 2x3, multiply, square, relinearize, mod-switch, rescale, plain operations, rotations, representation changes) is checked with is_valid_for AND with the Lean model of the validity predicate on the dumped object, and must be accepted by a following operation; (b) in-place / destination (pre-filled with an unrelated object) / returning forms of 13-16 operation families run on identical operands: results bytewise equal incl. metadata, operands untouched; (c) single-field corruptions (residue = q, last residue > q, foreign parms id, key-level parms id, scale 0 / != 1, correction factor 0 / > t / != 1, truncated buffer, plaintext coefficient = t), level mismatch, wrong representation, unexpanded seed: 12 operations each must refuse.",
     "assumptions": ["any refusal (panic of any kind or Err) counts; only a silent success on a corrupted operand is a violation"],
 }
+
+def _c17_cov(res):
+    import re
+    st = tr = sch = scen = 0
+    for k in res.notes:
+        m = re.search(r"schedules=(\d+) states=(\d+) transitions=(\d+)", k)
+        if m: sch += int(m.group(1)); st += int(m.group(2)); tr += int(m.group(3)); scen += 1
+    traces = res.fns.get("skcache", 0) + res.fns.get("galcache", 0)
+    bad = sum(1 for f in res.model_fail + res.spec_fail if f["case"].split(" ")[0] in ("skcache", "galcache"))
+    return {"states": st, "transitions": tr, "traces_validated_against_impl": traces - bad,
+            "exhaustively_explored_scenarios": scen, "maximal_schedules_in_them": sch,
+            "state_space_note": "states / transitions = distinct (observed cache, per-thread position) pairs and (state, resumed thread) edges seen by the "
+                                "harness while enumerating ALL maximal schedules of a scenario on the real code, summed over the scenarios; each scenario's "
+                                "numbers are compared with the model's own exhaustive exploration (skspace / galspace lines)."}
+
+P["C17"] = {
+    "lean_modules": ["Heathcliff.Props.C17"],
+    "level": "proof",
+    "runs": lambda tier, seed: ([{"seed": seed}] if tier == "quick" else
+                                [{"seed": seed, "args": [p]} for p in ("sk2", "sk3", "sk4", "gal2", "gal3")]),
+    "search": lambda tier, seed: [{"seed": seed * 7919 + 1, "args": ["sk2"]}, {"seed": seed * 7919 + 2, "args": ["gal2"]}],
+    "rule": "Real threads under a token-passing scheduler (hook H4 yield points, never while a lock is held). Quick: ALL interleavings of 2 threads for "
+            "every ordered pair of requested powers 1..4 (decrypting ciphertexts of sizes 2..5 obtained by multiplying without relinearization; BFV and "
+            "CKKS Decryptor; KeyGenerator relinearization keys of count 1..3), fresh and pre-grown caches; ALL interleavings of 2 concurrent rotations for "
+            "every pair of Galois elements (N=8, CKKS, NTT form), with a prefilled table, and of 2 concurrent Galois-key generations; 3 and 4 threads "
+            "sampled. Thorough: 3 threads exhaustively (sorted triples of powers; thread ids are symmetric), 4 threads sampled, N=16 for the tables. "
+            "One case = one schedule; its output is the observed trace (thread, phase, cache length / set of generated tables after every step) and "
+            "whether every thread returned byte for byte the sequential result.",
+    "exhaustive": {"quick": True, "thorough": True},
+    "explanation": "exhaustive=true refers to the sub-universe `all maximal schedules of the yield points of 2 threads (thorough: 3 threads) for all "
+                   "combinations of requested powers <= 4 / all pairs of Galois elements at the stated N`; 4-thread runs are sampled. The theorems "
+                   "themselves quantify over every schedule, any number of threads and any requests.",
+    "assumptions": ["each lock region is atomic and the code between two regions touches thread-local data only (std::sync::RwLock, the Rust memory model "
+                    "and the borrow checker are trusted; lock poisoning is not modelled)",
+                    "yield points are placed at every point between two lock regions of the modelled functions and nowhere while a lock is held "
+                    "(hook H4, checked by the watchdog: a yield under a lock would stall the run)",
+                    "the only interior-mutable fields of the crate are the modelled ones (Gen/Sync.lean, re-extracted every run)",
+                    "relinearization / Galois key generation is randomized: `sequential result` there means keys that relinearize / rotate a ciphertext "
+                    "to one with the same decryption"],
+    "extra_coverage": _c17_cov,
+}
